@@ -12,6 +12,8 @@ def run(ctx, rep):
                 "against the model; non-trivial = at least one outer iteration")
     run_parallel(ctx, rep, oracles=["buffer", "cert", "path"], gen_opts=dict(warm=True), n_quick=14, n_thorough=200)
     run_bbox(ctx, rep, oracles=["buffer", "cert"], solvers_=["ProxNewton", "GroupBCD", "GroupProxNewton", "MultiTaskBCD"])
+    from . import est_common
+    est_common.run_warm_refits(ctx, rep)
 
 
 def replay(ctx, payload):
